@@ -75,7 +75,8 @@ class Unusable:
 
 class GenericAliasMC(type):
     def __instancecheck__(cls, obj):
-        return hasattr(obj, "__origin__")
+        # An actual generic alias, not any object with an __origin__ attribute
+        return typing.get_origin(obj) is not None
 
 
 class GenericAlias(metaclass=GenericAliasMC):
